@@ -39,6 +39,7 @@ class SimDisk:
         self.log = []             # (seq, op, offset, length)
         self.seqsrc = seqsrc
         self.bytes_read = 0
+        self.bytes_requested = 0
         self.bytes_written = 0
         self.keep_log = True
 
@@ -144,6 +145,7 @@ class SimFile:
         self._live()
         if n is None or n < 0:
             n = max(0, len(self.disk.data) - self.pos)
+        self.disk.bytes_requested += n
         r = self._check('read', self.pos, n)
         if r is not None and r[0] == 'short':
             n = min(n, r[1])
